@@ -1434,6 +1434,10 @@ impl PayloadEncode for ScmpMessageUnknown {
             );
 
             let range = layout.message_specific_data_rng().aligned_byte_range();
+            // The bytes between the checksum and the message specific data are not part of the
+            // model: always encode them as zero, also into a buffer that was not zeroed.
+            buf.get_unchecked_mut(L::CHECKSUM_RNG.aligned_byte_range().end..range.start)
+                .fill(0);
             let data_len = range.end - range.start;
             buf.get_unchecked_mut(range)
                 .copy_from_slice(&self.message_specific_data[..data_len]);
